@@ -1,6 +1,736 @@
-//! C07 — stub (to be implemented).
+//! C07 — CRAM files round-trip their records and are structurally conformant containers.
+//!
+//! Monitor (1), in this binary: generated CRAM-mode record streams (gencram) are written with
+//! `cram::io::writer::Builder` under an option matrix (preserve_read_names, position deltas, block
+//! content encoder maps, layouts through hook H3) and read back through `cram::io::reader::Builder`
+//! with the same reference repository; the read-back `RecordBuf`s are compared field by field with
+//! the generator's *descriptions* under the tolerances listed in `assumptions`.
+//! Monitor (2), `py/cram_walk.py` run by the driver's `post` hook: every written file is dumped with
+//! a sidecar of expected totals and walked by an independent container walker.
+
+mod emap;
+
+use std::collections::{BTreeMap, BTreeSet};
+
+use gencram::{Aux, GenOpts, ReadDesc, SliceCtx, Stream};
+use noodles_cram as cram;
+use noodles_sam::{self as sam, alignment::RecordBuf, alignment::io::Write as _};
+use serde_json::{Value as Json, json};
+use vcore::{CaseOut, Ctx, Report, Rng, guard, rng::fnv1a, run_cases};
+
+#[derive(Clone, Debug)]
+struct Case {
+    /// "rand" or the name of a deterministic corpus entry
+    class: String,
+    gseed: u64,
+    opts: GenOpts,
+    preserve_names: bool,
+    deltas: bool,
+    emap: String,
+    /// H3 layout (records per slice, slices per container); None = production values
+    layout: Option<(usize, usize)>,
+}
+
+const PRODUCTION_RPS: usize = 10240;
+
+impl Case {
+    fn rps(&self) -> usize {
+        self.layout.map(|l| l.0).unwrap_or(PRODUCTION_RPS)
+    }
+    fn rpc(&self) -> usize {
+        self.layout.map(|l| l.0 * l.1).unwrap_or(PRODUCTION_RPS)
+    }
+    /// (container index, slice index within the file) of record `i`
+    fn slice_of(&self, i: usize) -> (usize, usize) {
+        let c = i / self.rpc();
+        (c, (i % self.rpc()) / self.rps())
+    }
+}
+
+fn case_json(c: &Case) -> Json {
+    json!({"class": c.class, "gseed": c.gseed.to_string(), "preserve_read_names": c.preserve_names, "position_deltas": c.deltas,
+           "encoder_map": c.emap, "layout_rps_spc": c.layout.map(|l| vec![l.0, l.1]),
+           "opts": format!("{:?}", c.opts)})
+}
+
+// ---------------------------------------------------------------------------------------------
+// deterministic corpus: hand-made streams (witnesses of the known defects and basic shapes)
+
+fn det_ref() -> Vec<gencram::RefSeq> {
+    vec![
+        gencram::RefSeq { name: "sq0".into(), seq: b"ACGTACGTTTGACCAGTNNACGGATCAGCTAGCATCGACTAGCATCGGGATATCCGAT".to_vec(), with_m5: false },
+        gencram::RefSeq { name: "sq1".into(), seq: b"TTGACGATCGGCTATATAGCGCGATCGATCGGGCATACGACTAGCAAAACGT".to_vec(), with_m5: true },
+    ]
+}
+
+fn rd(name: &str, flags: u16, ref_id: Option<usize>, pos: Option<usize>, cigar: &[(char, usize)], bases: &[u8], quals: &[u8]) -> ReadDesc {
+    ReadDesc {
+        name: Some(name.as_bytes().to_vec()),
+        flags,
+        ref_id,
+        pos,
+        mapq: if flags & gencram::F_UNMAPPED != 0 { None } else { Some(30) },
+        cigar: cigar.to_vec(),
+        bases: bases.to_vec(),
+        quals: quals.to_vec(),
+        mate_ref: None,
+        mate_pos: None,
+        tlen: 0,
+        tags: Vec::new(),
+        edits: Vec::new(),
+        features: Default::default(),
+        template: 0,
+        mate: None,
+    }
+}
+
+const DET: &[&str] = &[
+    "det:mapped-no-qualities",
+    "det:unmapped-no-bases-no-qualities",
+    "det:mapped-cigar-no-bases",
+    "det:two-mapped-plain",
+    "det:pair-sorted-in-slice",
+    "det:pair-first-is-rightmost-in-slice",
+    "det:pair-different-references-in-slice",
+    "det:pair-mapped-with-placed-unmapped-mate-in-slice",
+    "det:pair-across-slices",
+    "det:mixed-qualities-present-and-missing",
+    "det:unmapped-with-bases-only",
+    "det:missing-name-unpaired",
+];
+
+fn det_stream(name: &str) -> (Stream, Option<(usize, usize)>) {
+    use gencram::{F_FIRST, F_LAST, F_PAIRED, F_UNMAPPED};
+    let refs = det_ref();
+    let q = |n: usize| vec![30u8; n];
+    let mut layout = None;
+    let mut reads = match name {
+        "det:mapped-no-qualities" => vec![rd("r0", 0, Some(0), Some(1), &[('M', 4)], b"acgn", b"")],
+        "det:unmapped-no-bases-no-qualities" => vec![rd("r0", F_UNMAPPED, None, None, &[], b"", b"")],
+        "det:mapped-cigar-no-bases" => vec![rd("r0", 0, Some(0), Some(1), &[('M', 4)], b"", b"")],
+        "det:two-mapped-plain" => vec![
+            rd("r0", 0, Some(0), Some(1), &[('M', 8)], b"ACGTACGT", &q(8)),
+            rd("r1", 16, Some(0), Some(5), &[('M', 3), ('I', 1), ('M', 4)], b"ACGATTTG", &q(8)),
+        ],
+        "det:pair-sorted-in-slice" => vec![
+            rd("p0", F_PAIRED | F_FIRST, Some(0), Some(1), &[('M', 8)], b"ACGTACGT", &q(8)),
+            rd("p0", F_PAIRED | F_LAST | 16, Some(0), Some(21), &[('M', 8)], b"CGGATCAG", &q(8)),
+        ],
+        "det:pair-first-is-rightmost-in-slice" => vec![
+            rd("p0", F_PAIRED | F_LAST | 16, Some(0), Some(21), &[('M', 8)], b"CGGATCAG", &q(8)),
+            rd("p0", F_PAIRED | F_FIRST, Some(0), Some(1), &[('M', 8)], b"ACGTACGT", &q(8)),
+        ],
+        "det:pair-different-references-in-slice" => vec![
+            rd("p0", F_PAIRED | F_FIRST, Some(0), Some(1), &[('M', 8)], b"ACGTACGT", &q(8)),
+            rd("p0", F_PAIRED | F_LAST, Some(1), Some(3), &[('M', 8)], b"GACGATCG", &q(8)),
+        ],
+        "det:pair-mapped-with-placed-unmapped-mate-in-slice" => vec![
+            rd("p0", F_PAIRED | F_FIRST, Some(0), Some(1), &[('M', 8)], b"ACGTACGT", &q(8)),
+            rd("p0", F_PAIRED | F_LAST | F_UNMAPPED, Some(0), Some(1), &[], b"GGGGTTTTAA", &q(10)),
+        ],
+        "det:pair-across-slices" => {
+            layout = Some((1, 1));
+            vec![
+                rd("p0", F_PAIRED | F_FIRST, Some(0), Some(1), &[('M', 8)], b"ACGTACGT", &q(8)),
+                rd("p0", F_PAIRED | F_LAST | 16, Some(0), Some(21), &[('M', 8)], b"CGGATCAG", &q(8)),
+            ]
+        }
+        "det:mixed-qualities-present-and-missing" => vec![
+            rd("r0", 0, Some(0), Some(1), &[('M', 8)], b"ACGTACGT", &[10, 11, 12, 13, 14, 15, 16, 17]),
+            rd("r1", 0, Some(0), Some(2), &[('M', 4)], b"CGTA", b""),
+            rd("r2", 0, Some(0), Some(3), &[('M', 4)], b"GTAC", &[20, 21, 22, 23]),
+        ],
+        "det:unmapped-with-bases-only" => vec![rd("r0", F_UNMAPPED, None, None, &[], b"ACGTN", b"")],
+        "det:missing-name-unpaired" => {
+            let mut r = rd("x", 0, Some(0), Some(1), &[('M', 8)], b"ACGTACGT", &q(8));
+            r.name = None;
+            vec![r, rd("r1", 0, Some(0), Some(2), &[('M', 4)], b"CGTA", &q(4))]
+        }
+        _ => panic!("unknown deterministic case {name}"),
+    };
+    for (i, r) in reads.iter_mut().enumerate() {
+        r.template = if r.name.as_deref() == Some(b"p0") { 1000 } else { i };
+    }
+    gencram::finalize_mates(&mut reads);
+    (Stream { refs, read_groups: vec!["rg0".into()], reads }, layout)
+}
+
+// ---------------------------------------------------------------------------------------------
+
+fn gen_cases(ctx: &Ctx) -> Vec<Case> {
+    let mut cases = Vec::new();
+    for name in DET {
+        let (_, layout) = det_stream(name);
+        cases.push(Case {
+            class: name.to_string(),
+            gseed: 0,
+            opts: GenOpts::default(),
+            preserve_names: true,
+            deltas: true,
+            emap: "default".into(),
+            layout,
+        });
+    }
+    let emaps = emap::names();
+    // every encoder map once on a fixed, feature-rich stream shape (deterministic part)
+    for (k, e) in emaps.iter().enumerate() {
+        cases.push(Case {
+            class: "rand".into(),
+            gseed: ctx.seed ^ (0xE0 + k as u64) << 20,
+            opts: GenOpts { n_templates: 24, n_refs: 2, iupac_ref: k % 2 == 0, ..GenOpts::default() },
+            preserve_names: k % 3 != 0,
+            deltas: k % 2 == 0,
+            emap: e.clone(),
+            layout: Some((7, 1 + k % 3)),
+        });
+    }
+    let n = ctx.budget("cases", 400, 20000);
+    let mut rng = Rng::new(ctx.seed, 0xC07, 0);
+    for i in 0..n {
+        let mut o = GenOpts::default();
+        o.n_refs = rng.urange(1, 4);
+        o.ref_len = (rng.urange(20, 80), rng.urange(80, 700));
+        o.n_templates = 1 + rng.skewed(44) as usize;
+        o.sorted = rng.chance(2, 5);
+        o.iupac_ref = rng.chance(7, 20);
+        o.single_ref_reads = rng.chance(1, 4);
+        o.pm_pair = *rng.pick(&[0, 200, 400, 700]);
+        o.pm_unmapped_single = *rng.pick(&[0, 60, 150, 400]);
+        o.max_read_len = *rng.pick(&[5, 20, 60, 150]);
+        o.pm_mates_adjacent = *rng.pick(&[0, 400, 1000]);
+        o.n_read_groups = rng.urange(0, 3);
+        o.pm_tags = *rng.pick(&[0, 500, 900]);
+        match rng.below(100) {
+            0..=4 => o.pm_noqual = 300,
+            5..=7 => {
+                o.pm_nobases_unmapped = 600;
+                o.pm_unmapped_single = 500;
+            }
+            8..=9 => o.pm_nobases_mapped = 200,
+            10..=11 => o.pm_noname = 300,
+            _ => {}
+        }
+        let layout = match rng.below(20) {
+            0..=2 => None,
+            3..=10 => Some((rng.urange(1, 30), 1)),
+            _ => Some((rng.urange(1, 20), rng.urange(2, 4))),
+        };
+        let emap = if i % 2 == 0 { emaps[(i / 2) as usize % emaps.len()].clone() } else { rng.pick(&emaps).clone() };
+        cases.push(Case {
+            class: "rand".into(),
+            gseed: rng.next_u64(),
+            opts: o,
+            preserve_names: rng.chance(7, 10),
+            deltas: rng.bool(),
+            emap,
+            layout,
+        });
+    }
+    // production slice/container rollover: > 10 240 records without H3
+    let big = ctx.budget("big", 1, 6);
+    for k in 0..big {
+        let mut o = GenOpts::default();
+        o.n_refs = 1 + (k as usize % 3);
+        o.ref_len = (3000, 6000);
+        o.n_templates = [7400, 11000, 15500, 8200, 10300, 7700][k as usize % 6];
+        o.sorted = k % 2 == 0;
+        o.max_read_len = 40;
+        o.max_skip = 30;
+        o.pm_pair = 450;
+        o.iupac_ref = k % 3 == 1;
+        cases.push(Case {
+            class: "rand".into(),
+            gseed: ctx.seed.wrapping_mul(977) ^ (k << 8),
+            opts: o,
+            preserve_names: k % 2 == 0,
+            deltas: k % 3 != 0,
+            emap: ["default", "rans4x8:1", "nx16:0x01", "bzip2:9", "tok", "aac:0x00"][k as usize % 6].into(),
+            layout: None,
+        });
+    }
+    cases
+}
+
+fn build_stream(c: &Case) -> (Stream, Option<(usize, usize)>) {
+    if c.class.starts_with("det:") {
+        det_stream(&c.class)
+    } else {
+        let mut rng = Rng::new(c.gseed, 0x5EED, 0);
+        (gencram::gen_stream(&mut rng, &c.opts), c.layout)
+    }
+}
+
+enum WriteOutcome {
+    Ok(Vec<u8>),
+    Rejected(String),
+    Panicked(guard::PanicInfo),
+}
+
+fn write_cram(c: &Case, s: &Stream, header: &sam::Header, records: &[RecordBuf]) -> WriteOutcome {
+    let repo = s.repository();
+    let r = guard::catch(|| -> std::io::Result<Vec<u8>> {
+        let mut b = cram::io::writer::Builder::default()
+            .set_reference_sequence_repository(repo)
+            .preserve_read_names(c.preserve_names)
+            .encode_alignment_start_positions_as_deltas(c.deltas);
+        if c.emap != "default" {
+            b = b.set_block_content_encoder_map(emap::build(&c.emap));
+        }
+        if let Some((rps, spc)) = c.layout {
+            b = b.verif_set_layout(rps, spc);
+        }
+        let mut w = b.build_from_writer(Vec::new());
+        w.write_header(header)?;
+        for r in records {
+            w.write_alignment_record(header, r)?;
+        }
+        w.try_finish(header)?;
+        Ok(w.into_inner())
+    });
+    match r {
+        Err(p) => WriteOutcome::Panicked(p),
+        Ok(Err(e)) => WriteOutcome::Rejected(classify_error(&e.to_string())),
+        Ok(Ok(v)) => WriteOutcome::Ok(v),
+    }
+}
+
+/// Error class: the message with data-dependent numbers removed. "missing external block: N"
+/// keeps its number (a data series id, i.e. part of the diagnosis).
+fn classify_error(m: &str) -> String {
+    if m.starts_with("missing external block: ") && m.len() < 40 {
+        return m.to_string();
+    }
+    let mut s = guard::normalise_message(m);
+    if let Some(i) = s.find("expected [") {
+        s.truncate(i);
+    }
+    if s.len() > 90 {
+        s.truncate(90);
+    }
+    s
+}
+
+fn read_back(bytes: &[u8], s: &Stream) -> Result<Vec<RecordBuf>, (String, String)> {
+    let repo = s.repository();
+    let r = guard::catch(|| -> Result<Vec<RecordBuf>, (String, String)> {
+        let mut reader = cram::io::reader::Builder::default()
+            .set_reference_sequence_repository(repo)
+            .build_from_reader(bytes);
+        let header = reader.read_header().map_err(|e| ("header".to_string(), e.to_string()))?;
+        let mut out = Vec::new();
+        for r in reader.records(&header) {
+            out.push(r.map_err(|e| ("records".to_string(), e.to_string()))?);
+        }
+        Ok(out)
+    });
+    match r {
+        Err(p) => Err(("panic".into(), p.sig)),
+        Ok(x) => x,
+    }
+}
+
+fn cigar_of(r: &RecordBuf) -> Vec<(char, usize)> {
+    r.cigar().as_ref().iter().map(|op| (gencram::char_of(op.kind()), op.len())).collect()
+}
+
+fn fmt_cigar(c: &[(char, usize)]) -> String {
+    if c.is_empty() { "*".into() } else { c.iter().map(|(k, n)| format!("{n}{k}")).collect() }
+}
+
+/// Relation of a record to its mate, for signatures (from the descriptions and the layout only).
+fn pair_class(c: &Case, s: &Stream, i: usize) -> String {
+    let w = &s.reads[i];
+    let Some(j) = w.mate else {
+        return if w.is_paired() { "paired-flag-without-mate-record".into() } else { "unpaired".into() };
+    };
+    if c.slice_of(i) != c.slice_of(j) {
+        return "mate-in-other-slice".into();
+    }
+    let m = &s.reads[j];
+    let (first, second) = if i < j { (w, m) } else { (m, w) };
+    let rel = match (first.is_unmapped(), second.is_unmapped()) {
+        (true, true) => "both-unmapped".to_string(),
+        (false, false) => {
+            if first.ref_id != second.ref_id {
+                "both-mapped-different-references".to_string()
+            } else if first.pos == second.pos {
+                "both-mapped-same-start".to_string()
+            } else if first.pos < second.pos {
+                "both-mapped-first-in-file-is-leftmost".to_string()
+            } else {
+                "both-mapped-first-in-file-is-rightmost".to_string()
+            }
+        }
+        _ => "one-segment-unmapped".to_string(),
+    };
+    format!("mate-in-same-slice:{rel}")
+}
+
+struct Cmp {
+    violations: Vec<(String, String)>,
+    compared: u64,
+}
+
+fn compare(c: &Case, s: &Stream, got: &[RecordBuf]) -> Cmp {
+    let mut out = Cmp { violations: Vec::new(), compared: 0 };
+    let stream_class = stream_defect_class(s);
+    let mut seen: BTreeSet<String> = BTreeSet::new();
+    let mut push = |out: &mut Cmp, sig: String, desc: String| {
+        // one violation per signature and file is enough
+        if seen.insert(sig.clone()) {
+            out.violations.push((format!("{stream_class}{sig}"), desc));
+        }
+    };
+    if got.len() != s.reads.len() {
+        push(&mut out, "roundtrip:record-count".into(), format!("wrote {} records, read back {}", s.reads.len(), got.len()));
+        return out;
+    }
+    for (i, (w, r)) in s.reads.iter().zip(got).enumerate() {
+        out.compared += 1;
+        let mu = if w.is_unmapped() { "unmapped" } else { "mapped" };
+        let line = || w.sam_line(&s.refs);
+        // names
+        if c.preserve_names {
+            if let Some(n) = &w.name {
+                let g = r.name().map(|n| n.to_vec());
+                if g.as_ref() != Some(n) {
+                    push(&mut out, format!("roundtrip:name:{}", pair_class(c, s, i)),
+                         format!("record #{i}: name {:?} read back as {:?}; written: {}", String::from_utf8_lossy(n), g.map(|g| String::from_utf8_lossy(&g).to_string()), line()));
+                }
+            }
+        }
+        let gflags = u16::from(r.flags());
+        if gflags != w.flags {
+            push(&mut out, format!("roundtrip:flags:{mu}:{}", pair_class(c, s, i)),
+                 format!("record #{i}: flags {:#x} read back as {gflags:#x}; written: {}", w.flags, line()));
+        }
+        let gref = r.reference_sequence_id();
+        if gref != w.ref_id {
+            push(&mut out, format!("roundtrip:reference:{mu}"), format!("record #{i}: reference id {:?} read back as {gref:?}; written: {}", w.ref_id, line()));
+        }
+        let gpos = r.alignment_start().map(usize::from);
+        if gpos != w.pos {
+            push(&mut out, format!("roundtrip:position:{mu}"), format!("record #{i}: POS {:?} read back as {gpos:?}; written: {}", w.pos, line()));
+        }
+        if !w.is_unmapped() {
+            let gq = r.mapping_quality().map(u8::from);
+            let wq = w.mapq.filter(|q| *q != 255);
+            if gq != wq {
+                push(&mut out, "roundtrip:mapping-quality:mapped".into(), format!("record #{i}: MAPQ {wq:?} read back as {gq:?}; written: {}", line()));
+            }
+        }
+        let gc = cigar_of(r);
+        let wc = w.cigar_normalised();
+        if gc != wc {
+            let shape: BTreeSet<char> = w.cigar.iter().map(|x| x.0).collect();
+            push(&mut out, format!("roundtrip:cigar:{mu}:ops={}", shape.iter().collect::<String>()),
+                 format!("record #{i}: CIGAR {} (normalised {}) read back as {}; written: {}", w.cigar_string(), fmt_cigar(&wc), fmt_cigar(&gc), line()));
+        }
+        let gmr = r.mate_reference_sequence_id();
+        if gmr != w.mate_ref {
+            push(&mut out, format!("roundtrip:mate-reference:{}", pair_class(c, s, i)),
+                 format!("record #{i}: RNEXT {:?} read back as {gmr:?}; written: {}", w.mate_ref, line()));
+        }
+        let gmp = r.mate_alignment_start().map(usize::from);
+        if gmp != w.mate_pos {
+            push(&mut out, format!("roundtrip:mate-position:{}", pair_class(c, s, i)),
+                 format!("record #{i}: PNEXT {:?} read back as {gmp:?}; written: {}", w.mate_pos, line()));
+        }
+        if r.template_length() != w.tlen {
+            push(&mut out, format!("roundtrip:template-length:{}", pair_class(c, s, i)),
+                 format!("record #{i}: TLEN {} read back as {}; written: {}", w.tlen, r.template_length(), line()));
+        }
+        let gb: &[u8] = r.sequence().as_ref();
+        if !gb.eq_ignore_ascii_case(&w.bases) {
+            let at = gb.iter().zip(&w.bases).position(|(a, b)| !a.eq_ignore_ascii_case(b)).unwrap_or(gb.len().min(w.bases.len()));
+            let kind = if gb.len() != w.bases.len() {
+                "length".to_string()
+            } else {
+                // which edit covers the differing base
+                let mut p = 0usize;
+                let mut k = "?";
+                for e in &w.edits {
+                    let (n, name) = match e {
+                        gencram::Edit::Match(n) => (*n, "match"),
+                        gencram::Edit::Mismatch(n) => (*n, "mismatch"),
+                        gencram::Edit::Ins(n) => (*n, "insertion"),
+                        gencram::Edit::Soft(n) => (*n, "soft-clip"),
+                        _ => (0, ""),
+                    };
+                    if n > 0 && at < p + n {
+                        k = name;
+                        break;
+                    }
+                    p += n;
+                }
+                format!("in-{k}")
+            };
+            push(&mut out, format!("roundtrip:bases:{mu}:{kind}"),
+                 format!("record #{i}: bases differ (case-insensitively) at read offset {at}: wrote {:?}, read {:?}; written: {}",
+                         String::from_utf8_lossy(&w.bases), String::from_utf8_lossy(gb), line()));
+        }
+        let gq: &[u8] = r.quality_scores().as_ref();
+        if gq != &w.quals[..] {
+            let kind = if w.quals.is_empty() { "written-missing" } else if gq.is_empty() { "read-missing" } else if gq.len() != w.quals.len() { "length" } else { "value" };
+            push(&mut out, format!("roundtrip:quality-scores:{mu}:{kind}"),
+                 format!("record #{i}: qualities {:?} read back as {:?}; written: {}", w.quals, gq, line()));
+        }
+        let gt: Vec<([u8; 2], Aux)> = r.data().iter().map(|(t, v)| ([t.as_ref()[0], t.as_ref()[1]], Aux::from_value(v))).collect();
+        if gt != w.tags {
+            let norm = |a: &Aux| -> String {
+                match a {
+                    Aux::I8(_) | Aux::U8(_) | Aux::I16(_) | Aux::U16(_) | Aux::I32(_) | Aux::U32(_) => a.render(),
+                    _ => format!("{}|{}", a.type_code(), a.render()),
+                }
+            };
+            let mut a: Vec<String> = gt.iter().map(|(t, v)| format!("{}{}:{}", t[0] as char, t[1] as char, norm(v))).collect();
+            let mut b: Vec<String> = w.tags.iter().map(|(t, v)| format!("{}{}:{}", t[0] as char, t[1] as char, norm(v))).collect();
+            let kind = if a == b {
+                "integer-subtype"
+            } else {
+                a.sort();
+                b.sort();
+                if a == b { "order" } else { "value" }
+            };
+            let types: BTreeSet<&str> = w.tags.iter().map(|(_, v)| v.type_code()).collect();
+            let tsig = if kind == "value" { format!(":types={}", types.into_iter().collect::<Vec<_>>().join(",")) } else { String::new() };
+            push(&mut out, format!("roundtrip:tags:{kind}{tsig}"),
+                 format!("record #{i}: tags read back as {:?}; written: {}", gt.iter().map(|(t, v)| format!("{}{}:{}", t[0] as char, t[1] as char, v.render())).collect::<Vec<_>>(), line()));
+        }
+    }
+    // names regenerated: mates must still pair up, distinct templates must stay distinct
+    if !c.preserve_names {
+        let mut name_of_template: BTreeMap<usize, Vec<u8>> = BTreeMap::new();
+        let mut template_of_name: BTreeMap<Vec<u8>, usize> = BTreeMap::new();
+        for (i, (w, r)) in s.reads.iter().zip(got).enumerate() {
+            let Some(g) = r.name().map(|n| n.to_vec()) else {
+                push(&mut out, "roundtrip:regenerated-name:missing".into(), format!("record #{i} came back without a name (preserve_read_names=false); written: {}", w.sam_line(&s.refs)));
+                continue;
+            };
+            if w.name.is_none() {
+                continue;
+            }
+            match name_of_template.get(&w.template) {
+                Some(n) if *n != g => push(&mut out, format!("roundtrip:regenerated-name:mates-differ:{}", pair_class(c, s, i)),
+                    format!("record #{i}: the segments of template {} come back with different names {:?} / {:?}", w.template, String::from_utf8_lossy(n), String::from_utf8_lossy(&g))),
+                Some(_) => {}
+                None => {
+                    name_of_template.insert(w.template, g.clone());
+                }
+            }
+            match template_of_name.get(&g) {
+                Some(t) if *t != w.template => push(&mut out, "roundtrip:regenerated-name:templates-collide".into(),
+                    format!("record #{i}: name {:?} is shared by templates {} and {}", String::from_utf8_lossy(&g), t, w.template)),
+                Some(_) => {}
+                None => {
+                    template_of_name.insert(g, w.template);
+                }
+            }
+        }
+    }
+    out
+}
+
+/// Prefix for signatures of streams that contain a record of a known-defect class.
+fn stream_defect_class(s: &Stream) -> String {
+    let noqual = s.reads.iter().any(|r| !r.bases.is_empty() && r.quals.is_empty());
+    let nobases = s.reads.iter().any(|r| r.is_unmapped() && r.bases.is_empty());
+    match (noqual, nobases) {
+        (true, true) => "stream-has-record-without-qualities+unmapped-record-without-bases:".into(),
+        (true, false) => "stream-has-record-without-qualities:".into(),
+        (false, true) => "stream-has-unmapped-record-without-bases:".into(),
+        _ => String::new(),
+    }
+}
+
+/// Sidecar of expected totals for the container walker (from the descriptions and the layout).
+fn sidecar(c: &Case, s: &Stream) -> Json {
+    let rpc = c.rpc();
+    let rps = c.rps();
+    let mut containers = Vec::new();
+    let mut counter = 0usize;
+    for chunk in s.reads.chunks(rpc) {
+        let mut slices = Vec::new();
+        let mut sc = counter;
+        for sl in chunk.chunks(rps) {
+            let ctx = match gencram::slice_context(sl) {
+                SliceCtx::Single { ref_id, start, end, exact } => json!({"kind": "single", "ref": ref_id, "start": start, "end": end, "exact": exact}),
+                SliceCtx::Unmapped => json!({"kind": "unmapped"}),
+                SliceCtx::Multi => json!({"kind": "multi"}),
+            };
+            slices.push(json!({"records": sl.len(), "counter": sc, "ctx": ctx}));
+            sc += sl.len();
+        }
+        containers.push(json!({
+            "records": chunk.len(),
+            "counter": counter,
+            "bases": chunk.iter().map(|r| r.bases.len() as u64).sum::<u64>(),
+            "slices": slices,
+        }));
+        counter += chunk.len();
+    }
+    json!({
+        "records": s.reads.len(),
+        "refs": s.refs.iter().map(|r| json!({"name": r.name, "seq": String::from_utf8_lossy(&r.seq)})).collect::<Vec<_>>(),
+        "containers": containers,
+        "case": case_json(c),
+    })
+}
+
+fn run_case(ctx: &Ctx, idx: u64, c: &Case) -> CaseOut {
+    let mut o = CaseOut::new();
+    let (s, layout) = build_stream(c);
+    let mut c = c.clone();
+    c.layout = layout;
+    let c = &c;
+    let header = s.header();
+    let records = s.record_bufs();
+    o.count(&format!("encoder_map[{}]", c.emap), 1);
+    let bytes = match write_cram(c, &s, &header, &records) {
+        WriteOutcome::Ok(b) => b,
+        WriteOutcome::Rejected(why) => {
+            o.count(&format!("writer_rejected[{why}]"), 1);
+            o.count("files_rejected_by_writer", 1);
+            return o;
+        }
+        WriteOutcome::Panicked(p) => {
+            o.count(&format!("writer_panics[{}]", p.sig), 1);
+            o.count("files_writer_panicked", 1);
+            return o;
+        }
+    };
+    o.count("files_written", 1);
+    o.count("records_written", s.reads.len() as u64);
+    o.max("max_records_in_a_file", s.reads.len() as u64);
+    if bytes.len() > 6 {
+        o.count(&format!("version[{}.{}]", bytes[4], bytes[5]), 1);
+    }
+    // coverage from the descriptions
+    let mut feat_mask = 0u32;
+    for r in &s.reads {
+        for (k, (name, n)) in r.features.kinds().into_iter().enumerate() {
+            if n > 0 {
+                o.count(&format!("features[{name}]"), n as u64);
+                feat_mask |= 1 << k;
+            }
+        }
+    }
+    let n_containers = s.reads.len().div_ceil(c.rpc());
+    let n_slices: usize = s.reads.chunks(c.rpc()).map(|ch| ch.len().div_ceil(c.rps())).sum();
+    o.count("containers_expected", n_containers as u64);
+    o.count("slices_expected", n_slices as u64);
+    let mut layout_mask = 0u32;
+    if n_containers > 1 {
+        o.count("files_with_several_containers", 1);
+        layout_mask |= 1;
+    }
+    if n_slices > n_containers {
+        o.count("files_with_several_slices_in_a_container", 1);
+        layout_mask |= 2;
+    }
+    for ch in s.reads.chunks(c.rpc()) {
+        for sl in ch.chunks(c.rps()) {
+            match gencram::slice_context(sl) {
+                SliceCtx::Multi => {
+                    o.count("slices_multi_reference", 1);
+                    layout_mask |= 4;
+                }
+                SliceCtx::Unmapped => {
+                    o.count("slices_unmapped", 1);
+                    layout_mask |= 8;
+                }
+                SliceCtx::Single { .. } => o.count("slices_single_reference", 1),
+            }
+        }
+    }
+    let mut pair_mask = 0u32;
+    for (i, r) in s.reads.iter().enumerate() {
+        if r.mate.is_some() {
+            let pc = pair_class(c, &s, i);
+            pair_mask |= 1 << (fnv1a(pc.as_bytes()) % 16);
+            o.count(&format!("paired_records[{pc}]"), 1);
+        }
+        if r.is_unmapped() {
+            o.count("records_unmapped", 1);
+        }
+        if !r.bases.is_empty() && r.quals.is_empty() {
+            o.count("records_without_qualities", 1);
+        }
+        if r.bases.is_empty() {
+            o.count("records_without_bases", 1);
+        }
+    }
+
+    // (2) dump for the container walker
+    let dump = ctx.work.join("dump");
+    let _ = std::fs::create_dir_all(&dump);
+    std::fs::write(dump.join(format!("{idx}.cram")), &bytes).expect("dump cram");
+    std::fs::write(dump.join(format!("{idx}.json")), serde_json::to_vec(&sidecar(c, &s)).unwrap()).expect("dump sidecar");
+    o.count("files_dumped_for_walker", 1);
+
+    // (1) round trip
+    let class = stream_defect_class(&s);
+    match read_back(&bytes, &s) {
+        Err((stage, why)) => {
+            let sig = if stage == "panic" { format!("{class}roundtrip:reader-panic:{why}") } else { format!("{class}roundtrip:unreadable:{stage}:{}", classify_error(&why)) };
+            o.violation_with(
+                sig,
+                format!("the writer returned Ok ({} records, {} bytes) but reading the file back fails in {stage}: {why}", s.reads.len(), bytes.len()),
+                json!({"stream": if s.reads.len() <= 80 { s.to_json() } else { Json::Null }}),
+            );
+        }
+        Ok(got) => {
+            let cmp = compare(c, &s, &got);
+            o.count("records_compared", cmp.compared);
+            for (sig, desc) in cmp.violations {
+                o.violation_with(sig, desc, json!({"stream": if s.reads.len() <= 80 { s.to_json() } else { Json::Null }}));
+            }
+        }
+    }
+    o.evaluations = 1;
+    o.fp = fnv1a(format!("{}|{}|{}|{layout_mask}|{feat_mask}|{pair_mask}|{}", c.emap, c.preserve_names, c.deltas, c.opts.sorted).as_bytes());
+    if idx % 97 == 0 {
+        o.sample = Some(json!({"case": case_json(c), "first_records": s.reads.iter().take(3).map(|r| r.sam_line(&s.refs)).collect::<Vec<_>>()}));
+    }
+    o
+}
 
 fn main() {
-    eprintln!("c07: not implemented");
-    std::process::exit(2);
+    let ctx = Ctx::from_args();
+    let ctx = vcore::cases::replay_request(&ctx).map(|r| r.1).unwrap_or(ctx);
+    let mut rep = Report::new(
+        "case = one generated header+record stream (gencram: reads derived from random references by edit scripts; \
+         unmapped reads; two-segment templates with consistent mate fields; tags) x writer options (preserve_read_names, \
+         position deltas, block content encoder map, H3 layout) written with cram::io::Writer and read back with \
+         cram::io::Reader; deterministic corpus (hand-made witnesses + every encoder map once) plus a VERIF_SEED-seeded \
+         random part; distinct = distinct (encoder map, preserve names, deltas, sorted, layout class bitmask [several \
+         containers / several slices per container / multi-reference slice / unmapped slice], feature-kind bitmask, \
+         pair-relation bitmask); non-trivial = the writer returned Ok (file read back, compared and dumped for the walker)",
+    );
+    for a in [
+        "bases are compared case-insensitively (statement)",
+        "CIGAR is compared after mapping =/X to M and merging adjacent operations of the same kind (CRAM stores an edit script, not the CIGAR)",
+        "the header is not required to round-trip (the writer adds M5 to @SQ)",
+        "MAPQ is compared for mapped records only (CRAM stores MQ only for mapped reads; the statement's field list does not name MAPQ)",
+        "with preserve_read_names=false names are not compared; the two segments of a template must come back with one name and distinct templates with distinct names",
+        "a record written without a name is not compared on its name (CRAM regenerates names)",
+        "aux values are compared with their exact type incl. integer subtypes c/C/s/S/i/I (CRAM keys tag series by tag+type; observed to be preserved), floats bit by bit; MD/NM are ordinary tags to noodles (neither stripped nor regenerated)",
+        "mapped records always carry a CIGAR whose read length equals the number of bases; fqzcomp is only assigned to the quality-score series and the name tokenizer only to the read-name series",
+        "a writer call that returns Err or panics is counted (writer_rejected / writer_panics) and is not a violation; TLEN of generated pairs follows SAMv1 1.4.9 (leftmost..rightmost mapped base, + for the leftmost segment, first in file on ties, 0 across references or with an unmapped segment)",
+    ] {
+        rep.assumptions.push(a.into());
+    }
+    let cases = gen_cases(&ctx);
+    let f = |i: u64| -> CaseOut { run_case(&ctx, i, &cases[i as usize]) };
+    run_cases(&ctx, &mut rep, cases.len() as u64, 120.0, &f, &|i| case_json(&cases[i as usize]));
+    if ctx.replay.is_none() {
+        let counters = rep.counters.clone();
+        let g = |k: &str| counters.get(k).copied().unwrap_or(0);
+        rep.floor("files_written", g("files_written"), (cases.len() as u64) * 6 / 10);
+        rep.floor("records_compared", g("records_compared"), 2000);
+        rep.floor("slices_multi_reference", g("slices_multi_reference"), 5);
+        rep.floor("files_with_several_containers", g("files_with_several_containers"), 20);
+        rep.floor("files_with_several_slices_in_a_container", g("files_with_several_slices_in_a_container"), 20);
+    }
+    rep.finish(&ctx);
 }
